@@ -16,8 +16,8 @@ open Consts
 /-- how one step may change the node states and the moving thread's ownership -/
 inductive OwnStep (s : Shared) (o : Option Nat) (s' : Shared) (o' : Option Nat) : Prop
   | same (hiu : ∀ m, (s'.nodes m).inUse = (s.nodes m).inUse) (hn : s'.nNodes = s.nNodes) (ho : o' = o)
-  | release (n : Nat) (h : (s.nodes n).inUse = nodeCooldown)
-      (hiu : ∀ m, (s'.nodes m).inUse = if m = n then nodeUnused else (s.nodes m).inUse)
+  | release (n : Nat) (v : Nat) (h : (s.nodes n).inUse ≠ nodeUsed)
+      (hiu : ∀ m, (s'.nodes m).inUse = if m = n then v else (s.nodes m).inUse)
       (hn : s'.nNodes = s.nNodes) (ho : o' = o)
   | claim (n : Nat) (h : (s.nodes n).inUse = nodeUnused) (hlt : n < s.nNodes ∨ True)
       (hiu : ∀ m, (s'.nodes m).inUse = if m = n then nodeUsed else (s.nodes m).inUse)
@@ -42,19 +42,25 @@ theorem stepNG_own (s : Shared) (b : Bool) (ng : NG) :
     cases s.head <;> exact .same (fun _ => rfl) rfl rfl
   | cc0 n =>
     simp only [stepNG]
-    split <;> exact .same (fun _ => rfl) rfl rfl
-  | cc1 n =>
-    simp only [stepNG]
-    split <;> exact .same (fun _ => rfl) rfl rfl
-  | cc2 n =>
-    simp only [stepNG]
     split
     · rename_i h
-      refine .release n h (fun m => ?_) rfl rfl
+      refine .release n nodeChecking (by rw [h]; exact (Consts.node_states_distinct.2.1).symm) (fun m => ?_) rfl rfl
       by_cases hm : m = n
       · subst hm; simp
       · simp [hm]
     · exact .same (fun _ => rfl) rfl rfl
+  | cc1 n =>
+    simp only [stepNG]
+    exact .same (fun _ => rfl) rfl rfl
+  | cc2 n idle =>
+    simp only [stepNG]
+    split
+    · rename_i h
+      refine .release n (if idle then nodeUnused else nodeCooldown) (by rw [h]; exact Consts.node_checking_distinct.1) (fun m => ?_) rfl rfl
+      by_cases hm : m = n
+      · subst hm; simp
+      · simp [hm]
+    · exact .same (fun _ => by simp) (by simp) rfl
   | claim n =>
     simp only [stepNG]
     split
@@ -417,7 +423,7 @@ theorem OwnStep.transfer {s : Shared} {o : Option Nat} {s1 s2 : Shared} {o' o'' 
   subst ho
   cases h with
   | same hiu hn' ho => exact .same (fun m => by rw [hn]; exact hiu m) (by rw [hk]; exact hn') ho
-  | release n h hiu hn' ho => exact .release n h (fun m => by rw [hn]; exact hiu m) (by rw [hk]; exact hn') ho
+  | release n v h hiu hn' ho => exact .release n v h (fun m => by rw [hn]; exact hiu m) (by rw [hk]; exact hn') ho
   | claim n h hlt hiu hn' hob ho => exact .claim n h hlt (fun m => by rw [hn]; exact hiu m) (by rw [hk]; exact hn') hob ho
   | fresh hiu hn' hob ho => exact .fresh (fun m => by rw [hn]; exact hiu m) (by rw [hk]; exact hn') hob ho
   | cool n hob hiu hn' ho => exact .cool n hob (fun m => by rw [hn]; exact hiu m) (by rw [hk]; exact hn') ho
@@ -609,17 +615,16 @@ theorem OwnInv.step {st : State} (h : OwnInv st) (t : Nat) (b : Bool) : OwnInv (
     · rw [hiu]; exact h.used t' n (all t' ▸ hh)
     · rw [all t2]; exact h.excl t1 t2 n hne (all t1 ▸ h1)
     · rw [hiu]; exact h.beyond n (hn ▸ hn')
-  | release n hc hiu hn ho =>
+  | release n v hc hiu hn ho =>
     have all : ∀ t', ownsT (st'.th t') = ownsT (st.th t') := fun t' => by
       by_cases ht : t' = t
       · subst ht; exact ho
       · exact oth t' ht
-    have nobody : ∀ t', ownsT (st.th t') ≠ some n := fun t' hh => by
-      have := h.used t' n hh; rw [hc] at this; exact hd.2.1 this.symm
+    have nobody : ∀ t', ownsT (st.th t') ≠ some n := fun t' hh => hc (h.used t' n hh)
     have hlt : n < st.sh.nNodes := by
       by_cases hl : n < st.sh.nNodes
       · exact hl
-      · have := h.beyond n (by omega); rw [hc] at this; exact absurd this.symm hd.2.1
+      · exact absurd (h.beyond n (by omega)) hc
     refine ⟨fun t' m hh => ?_, fun t' m hh => ?_, fun t1 t2 m hne h1 => ?_, fun m hm => ?_⟩
     · rw [hn]; exact h.lt t' m (all t' ▸ hh)
     · rw [hiu]
